@@ -8,7 +8,8 @@
  *          end() or an element with arbitrary contents (kept in gh_other), inserting/erasing it never changes the witness
  *          entry.  find/emplace/erase/clear have their container meaning on the witness key: find = element iff present,
  *          emplace inserts only if absent and reports that, erase(it) removes exactly the element `it` designates, clear
- *          removes everything, move construction transfers all elements.  Iteration visits every element exactly once: the witness (if present) at a
+ *          removes everything, move construction transfers all elements, extract(it) moves exactly that element into a node
+ *          handle.  Iteration visits every element exactly once: the witness (if present) at a
  *          nondeterministic position among an arbitrary (unbounded) number of other elements.
  * A-PROMISE QXmppPromise<IqResult>::finish(v) completes the task of that promise with v, once per call (ghost: the promise of
  *          the witness request -- the g_wgen-th one registered under g_wid -- counts its completions in gh_completions and keeps the
@@ -116,6 +117,27 @@ static inline void umap_erase(umap *m, umap_it it) {
   if (it == &m->w) { MODEL_LIMIT(m->w_present, "erase of a stale witness iterator"); m->w_present = false; }
 }
 static inline void umap_clear(umap *m) { m->w_present = false; }
+/* node handle (std::unordered_map::node_type): extract(it) takes exactly the element `it` designates out of the table and hands
+   its ownership to the handle; mapped()/key() designate that element.  The handle is a local of the function under contract:
+   when the function returns the handle -- and with it the IqState and its promise -- is destroyed.  The element lives in the
+   ghost slot gh_node_slot so that the contract can see whether it was destroyed unfinished (one handle per call). */
+typedef struct umap_node { bool has; } umap_node;
+bool gh_node_used;          /* a node handle was extracted during this call (and is destroyed at its end) */
+iqpair gh_node_slot;        /* the element it owns */
+static inline void umap_extract(umap_node *r, umap *m, umap_it it) {
+  __CPROVER_assert(it != NULL, "[safety.extract_designates_an_element] extract() is called with an iterator that designates an element");
+  MODEL_LIMIT(!gh_node_used, "more than one node handle extracted in one call");
+  gh_node_used = true; gh_node_slot = *it; r->has = true;
+  if (it == &m->w) { MODEL_LIMIT(m->w_present, "extract of a stale witness iterator"); m->w_present = false; }
+}
+static inline IqState *umap_node_mapped(const umap_node *n) {
+  __CPROVER_assert(n->has, "[safety.node_handle_not_empty] mapped() is called on a node handle that owns an element");
+  return &gh_node_slot.second;
+}
+static inline qstr umap_node_key(const umap_node *n) {
+  __CPROVER_assert(n->has, "[safety.node_handle_not_empty] key() is called on a node handle that owns an element");
+  return gh_node_slot.first;
+}
 /* default construction: empty; move construction: the new map holds exactly the elements the source held, the source is left
    empty (A-UMAP-MOVE: libstdc++; the standard only says "valid but unspecified" -- the repaired cancelAll clear()s it anyway) */
 static inline void umap_ctor(umap *m) { m->w_present = false; m->w.first = g_wid; m->w.second.jid = 0; m->w.second.interface.gh_is_w = true; m->w.second.interface.gh_gen = 0; m->w.second.interface.finished = false; }
